@@ -56,7 +56,7 @@ class Result:
             self.unknown.append({"what": what})
 
     def as_dict(self):
-        return dict(cfg=self.cfg, obligations=self.obligations, discharged=self.discharged, unknown=self.unknown,
+        return dict(vacuity=getattr(self, "vacuity", {}), cfg=self.cfg, obligations=self.obligations, discharged=self.discharged, unknown=self.unknown,
                     candidates=self.candidates, samples=self.samples[:3], fidelity=self.fidelity,
                     fidelity_fail=self.fidelity_fail, functions=self.functions, notes=self.notes,
                     paths=self.paths, stats=solve.STATS.as_dict())
@@ -158,7 +158,10 @@ def finish(mod, tier, seed, cfgs, results, t0):
     nontrivial = 0
     replays_done = 0
     max_replays = 12
+    vac = {"sat": 0, "unsat": 0, "unknown": 0}
     for d in results:
+        for k, v in (d.get("vacuity") or {}).items():
+            vac[k] = vac.get(k, 0) + v
         tot_ob += d["obligations"]
         tot_dis += d["discharged"]
         fid += d["fidelity"]
@@ -269,6 +272,8 @@ def finish(mod, tier, seed, cfgs, results, t0):
             "inconclusive_extended_list": unknown_ext[:20],
             "known_findings_hit": [k for k in known_hits],
             "solver": stats.as_dict(),
+            "reachability_witnesses": {"paths_with_satisfiable_assumptions": vac["sat"], "vacuous_paths": vac["unsat"],
+                                       "undecided_within_4s": vac["unknown"]},
             "functions_encoded": sorted(functions.values(), key=lambda f: (f["file"], f["line"])),
             "samples": samples or [{"note": "no samples"}],
             "configs": [c.get("name") for c in cfgs][:400],
